@@ -6,6 +6,32 @@ BASELINE_OFF = json.load(open('/root/.vp/BASELINE.json'))['cmd']
 
 # id -> (engine, category, technique, text, note, design_ref)
 CHECKS = {
+ 'C10': ('httpmon', 'exploration',
+   'runtime monitoring of operator notices: hsrv in-process on real TLS in seven configurations, raw requests carrying printf-looking text, marker-delimited notice windows scanned for formatter artefacts and for the verbatim client text; -race',
+   'Held on 2 800 (quick) / 42 000 (thorough) requests over path, raw query, c2 parameter/header, Host, undecodable escapes, /i and /o IDs and refusals naming two IDs, on the file (200/404/500), script (ok, template read/parse/exec error, c2 error), in, out and refusal paths: no notice contained %! and one notice always carried the client text character for character.',
+   'Only call sites that a request or a configured path can reach are exercised; a static scan of format-position arguments would be a different technique and is not used.',
+   'DESIGN.md C10'),
+ 'C11': ('brokermon+ptymon', 'exploration',
+   'offline checker over recorded event logs: every Write of a real slog JSON handler paired one-to-one and in order with deliveries recorded at harness writers and the operator channel; session reconstruction from the -log file of the real -race binary; -race',
+   'Held on 300 (quick) / 6 000 (thorough) in-process sessions with hostile data (quotes, control bytes, U+2028, invalid UTF-8, JSON look-alikes), failing writes/flushes, cancellations with output in flight, and refused attempts, plus 3 / 30 pty sessions of the real binary whose log file alone reproduced connections, refusals, input lines and output bytes.',
+   'Expected record data = delivered bytes with each invalid UTF-8 byte replaced by U+FFFD; binary output compared by concatenation.',
+   'DESIGN.md C11'),
+ 'C13': ('libmon', 'exploration',
+   'runtime monitoring of simpleshell.Go in child processes against per-call TLS servers that record handshakes and application bytes; oracle = pure function of the call\'s own (chain, fingerprint); snapshot monitor on http.DefaultClient/DefaultTransport; -race as primary monitor for the process-global',
+   'Held on every (key x 30 fingerprint spellings) pair for 8 (quick) / 64 (thorough) keys, 80 / 3 000 call sequences and 40 / 1 000 concurrent sets mixing pinned-right, pinned-wrong, malformed and un-pinned calls, with matches at chain position 0/1/2/absent and CA-valid/invalid servers for the un-pinned path: no application byte ever reached a non-matching server, malformed fingerprints never dialled, defaults untouched.',
+   'Key material is fresh per run; fingerprints containing CR/LF accept either outcome; http:// C2 URLs (no TLS at all) are outside the quantifier and only recorded as an observation.',
+   'DESIGN.md C13'),
+ 'C16': ('libmon', 'exploration',
+   'differential runtime monitoring: generated Perl programs run by perl directly and through the generated shell function under dash and bash; static recovery of the embedded text via a live perl unpack; coverage monitors for uu alphabet and length residues',
+   'Held on 400 (quick) / 8 000 (thorough) generated programs x 2 shells: identical stdout and exit status, die message and line number preserved, embedded text equals the trimmed script with leading comments blanked, lead comments and function name as stated. Seven recorded findings (END blocks, global destruction, CR handling after here-docs and in literals, use utf8 with non-UTF-8 bytes, __END__ followed by a colon, empty script) are pinned by fixed probes.',
+   'Generator excludes the classes behind the recorded findings and $0/__FILE__/caller/__DATA__; stderr compared only for the die clause.',
+   'DESIGN.md C16'),
+ 'C19': ('ptymon', 'exploration',
+   'real-time trace monitor on the real -race binary under a pty: token sends and terminal observations stamped by one monotonic clock, inequalities that stay sound under load',
+   'Held on 8 (quick) / 32 (thorough) sessions with 2 / 6 mute cycles each (flood, burst, 1.5 s gaps, gap above 2 s, Ctrl+O before output, repeated Ctrl+O, status lines while muted, sessions without Ctrl+O): no suppressed token was followed by an un-mute announcement within 2 s, no token appeared while the mute must have been in force, status lines always appeared, output after the announcement was displayed, mute ended within the progress bound.',
+   'Real time only: gaps within 0.4 s of the 2 s boundary are not generated; breadth comes from parallel processes.',
+   'DESIGN.md C19'),
+
  'C18': ('libmon', 'exploration',
    'runtime monitoring of the generated tab_list function executed by real dash and bash with echo replaced by an argument-recording stub; canary files as injection monitors; reference row set written from the statement',
    'Held on 600 (quick) / 15 000 (thorough) payloads x dash, bash and bash --posix: every echo call received exactly one word, no canary file appeared, no stderr, status 0, rows sorted bytewise and equal to the reference set plus the self row whenever the text is free of the tab-writer control bytes. A deliberately unsafe function is run first to prove the canaries and the stub can fire.',
